@@ -92,6 +92,32 @@ def corr(ctx, drv):
             msgs.append(f"bin centres differ: numpy {lin.tolist()} model {mc}")
         ctx.corr_case("bins", p, msgs, nontrivial=(cy != int(cy) or ri > 0 or n > 1))
         ctx.count("bins_centre_" + ("grid" if cy == int(cy) and cx == int(cx) else "half" if (cy * 2) == int(cy * 2) else "free"))
+    # the default bin count (n_bins=None) against Model.roundHalfEven of the span (theorem default_layout_domain): dyadic spans,
+    # the ties k + 1/2 among them
+    import common as _common
+    d2 = _common.Driver("drvlattice")
+    if d2.error:
+        ctx.corr_case("default_bins", {}, ["model driver drvlattice: " + d2.error])
+        return
+    try:
+        for k in range(60 if ctx.tier == "thorough" else 24):
+            ri = float(rng.choice([0.0, 0.5, 1.25, 2.0]))
+            span = float(rng.integers(1, 14)) + float(rng.choice([0.5, 0.5, 0.0, 0.25, 0.75, 0.375]))
+            R = ri + span
+            q = {"R": R, "ri": ri, "span": span}
+            msgs = []
+            try:
+                nb = masks.radial_bins(10.0, 9.5, 24, 23, radius=R, radius_inner=ri, use_sparse=False).shape[0]
+                mo = int(d2.ask(f"round {rat(span)}"))
+                if nb != mo:
+                    msgs.append(f"default bin count for radius {R}, radius_inner {ri}: implementation {nb}, model (half-to-even "
+                                f"rounding of the span {span}) {mo}")
+            except Exception as e:      # noqa: BLE001
+                msgs.append(f"radial_bins(n_bins=None) raised {type(e).__name__}: {e}")
+            ctx.corr_case("default_bins", q, msgs, nontrivial=(span * 2) % 2 == 1)
+            ctx.count("default_bins_tie" if (span * 2) % 2 == 1 else "default_bins")
+    finally:
+        d2.close()
 
 
 def run_case(kind, p):
